@@ -294,6 +294,8 @@ def sweep_session(pt, base, private: bool, tier, rng):
         s.emit(("newtable", t))
         s.emit(("loadmass", t))
     other = "public" if private else None
+    if private:
+        s.emit(("define", "public"))     # the namespace already holds another table's atoms
     s.emit(("define", t)); s.defined = t
     out = s.emit(("itertable", t)); check_lists(s, ("itertable", t), out)
     first = len(s.py.results) - out[1]
@@ -316,6 +318,16 @@ def sweep_session(pt, base, private: bool, tier, rng):
         for b in bad_symbols(s, sym)[:6]:
             s.emit(("symbol", t, b), ("raise",))
             s.emit(("isotope", t, b), ("raise",))
+        if i == 0:
+            # every attribute the table object itself carries is not a symbol / name / isotope string
+            tb = s.py.tables[t]
+            for b in sorted(set(dir(tb)) | set(vars(tb)) | set(bad_symbols(s, sym))):
+                if b not in s.syms:
+                    s.emit(("symbol", t, b), ("raise",))
+                    s.emit(("isotope", t, b), ("raise",))
+                    s.emit(("isotope", t, "1-" + b), ("raise",))
+                if b not in s.names:
+                    s.emit(("name", t, b), ("raise",))
         s.emit(("name", t, name.capitalize()), ("raise",))
         # a name is not a symbol, and a symbol is not a name
         if name not in s.syms:
@@ -553,6 +565,52 @@ def run_sessions(run: Run, pt, sessions, corr):
         report_failures(run, s)
 
 
+def numeric_charges(run: Run, pt, base, tables):
+    """charge keys of other numeric types: an integral value is the integer's ion (same object), a
+    non-integral value next to a valid charge is not a charge at all (real code only; the model's
+    keys are ints)"""
+    import numpy as np
+    from fractions import Fraction
+
+    def look(atom, key):
+        try:
+            return ("obj", atom.ion[key])
+        except Exception as e:  # noqa: the property only says "raises"
+            return ("err", type(e).__name__)
+
+    def describe(o):
+        if o[0] == "obj":
+            x = o[1]
+            return "%r (Z=%s, charge=%r)" % (x, getattr(x, "number", None), getattr(x, "charge", None))
+        return "raised " + o[1]
+
+    for label, tbl in tables:
+        for z in sorted(base):
+            ions = base[z][2]
+            el = tbl[z]
+            atoms = [el] + ([el[el.isotopes[0]]] if el.isotopes else [])
+            for atom in atoms:
+                iso = getattr(atom, "isotope", None)
+                for c in ions:
+                    want = atom.ion[c]
+                    for key in (np.int64(c), np.int8(c), float(c), np.float64(c), Fraction(c)):
+                        got = look(atom, key)
+                        run.count(key=("numq", label, z, iso, c, type(key).__name__), tag="numeric-charge", nontrivial=True)
+                        if got[0] != "obj" or got[1] is not want:
+                            run.violation("ion[%r] is not the ion of charge %d" % (key, c),
+                                          dict(kind="numeric-charge", table=label, z=z, isotope=iso, charge=c,
+                                               key=repr(key), got=describe(got)), z=z, charge=c)
+                    for d in (0.5, -0.75, 0.25, -0.5):
+                        for key in (c + d, np.float64(c + d), np.float32(c + d), Fraction(c) + Fraction(d)):
+                            got = look(atom, key)
+                            run.count(key=("fracq", label, z, iso, c, d, type(key).__name__), tag="fractional-charge",
+                                      nontrivial=True)
+                            if got[0] != "err":
+                                run.violation("ion[%r] did not raise" % (key,),
+                                              dict(kind="numeric-charge", table=label, z=z, isotope=iso, charge=c,
+                                                   key=repr(key), got=describe(got)), z=z, charge=c)
+
+
 def run(run: Run) -> int:
     pt = import_repo()
     base = read_base()
@@ -566,6 +624,10 @@ def run(run: Run) -> int:
             sessions.append(s)
         run_sessions(run, pt, sessions, "core-sweep")
         run.exhaustive = True
+        from periodictable import core as _core, mass as _mass
+        priv = _core.PeriodicTable("c08numq")
+        _mass.init(priv)
+        numeric_charges(run, pt, base, [("public", pt.elements), ("private", priv)])
         n = 600 if run.tier == "quick" else 15000
         for lo in range(0, n, 500):
             batch = []
@@ -590,6 +652,13 @@ def replay(data) -> int:
     base = read_base()
     rc = 0
     for v in data.get("violations", []) + data.get("disagreements", []):
+        if v["input"].get("kind") == "numeric-charge":
+            r = Run("C08", "quick", 0)
+            numeric_charges(r, pt, {v["input"]["z"]: base[v["input"]["z"]]}, [("public", pt.elements)])
+            for x in r.violations:
+                print("ORACLE  :", x["what"], x["input"]["got"])
+                rc = 1
+            continue
         ops = [tuple(o) for o in v["input"]["ops"]]
         exps = [tuple(tuple(x) if isinstance(x, list) else x for x in e) for e in v["input"].get("expects", [])]
         s = Session(pt, base, "replay")
